@@ -403,3 +403,8 @@ V("C14", "views_repointed_for_unaddressed_models", "violation", (SYSTEM, "      
 V("C14", "benign_views_guard_merged", "silent", (SYSTEM, "            if mdl.n == 0:\n                continue\n\n            # variables without addresses (e.g., of dynamic models before the\n            # time-domain initialization) have nothing to point to yet\n            if mdl.flags.address is False:\n                continue\n\n            for var in mdl.cache.vars_int.values():\n                var.set_arrays(self.dae, inplace=inplace, alloc=alloc)\n", "            if mdl.n == 0 or not mdl.flags.address:\n                continue\n\n            for var in mdl.cache.vars_int.values():\n                var.set_arrays(self.dae, inplace=inplace, alloc=alloc)\n"))
 V("C18", "lagrate_ignores_D", "violation", ("andes/core/block.py", "        self.y.v_str = f'{self.u.name} * {self.K.name} / {self.D.name}'\n        self.y.e_str = f'{self.K.name} * {self.u.name} - {self.D.name} * {self.name}_y'\n\n\nclass LagAntiWindupRate", "        self.y.v_str = f'{self.u.name} * {self.K.name}'\n        self.y.e_str = f'{self.K.name} * {self.u.name} - {self.name}_y'\n\n\nclass LagAntiWindupRate"), rule="C18.tf")
 V("C18", "lagfreeze_drops_D", "violation", ("andes/core/block.py", "        Lag.__init__(self, u, T, K, D=D, name=name, tex_name=tex_name, info=info)\n        self.freeze = dummify(freeze)", "        Lag.__init__(self, u, T, K, D=1, name=name, tex_name=tex_name, info=info)\n        self.freeze = dummify(freeze)"), rule="C18.tf")
+V("C19", "group_get_container_from_first_value", "violation", ("andes/models/group.py", "        if not any(isinstance(val, str) for val in ret):\n            values = ret\n            ret = np.zeros(n)\n            ret[:] = values\n", "        if not isinstance(ret[0], str):\n            values = ret\n            ret = np.zeros(n)\n            ret[:] = values\n"), rule="C19.registry")
+V("C19", "idx2model_unknown_is_none", "violation", ("andes/models/group.py", "                if i is None and allow_none:\n                    ret.append(None)\n                else:\n                    ret.append(self._idx2model[i])", "                if allow_none:\n                    ret.append(self._idx2model.get(i))\n                else:\n                    ret.append(self._idx2model[i])"), rule="C19.link-errors")
+V("C05", "offline_regca1_injects", "violation", ("andes/models/renewable/regca1.py", "                          e_str='-u * Pe',", "                          e_str='-Pe',"), rule="C05.offline")
+V("C05", "offline_zip_q_injects", "violation", ("andes/models/dynload/zip.py", "        self.rqp = ConstService(v_str='u * kqp / 100',", "        self.rqp = ConstService(v_str='kqp / 100',"), rule="C05.offline")
+V("C04", "reject_calc_h_before_rollback", "violation", (TDS, "                clock_ahead = self._t_prev is not None\n                if clock_ahead:\n                    dae.t[...] = self._t_prev\n                self.calc_h()\n", "                clock_ahead = self._t_prev is not None\n                self.calc_h()\n                if clock_ahead:\n                    dae.t[...] = self._t_prev\n"), rule="C04.rollback")
